@@ -3,13 +3,14 @@
 passes and the demonstration fails; without it the demonstration passes.  Writes /var/tmp/mutres/confirm.json."""
 import subprocess, os, re, json, sys, glob
 res = {}
-props = sys.argv[1:] or sorted(os.path.basename(d) for d in glob.glob('/tmp/mut/C??'))
+BASE = os.environ.get('MUT_BASE', '/tmp/mut')
+props = sys.argv[1:] or sorted(os.path.basename(d) for d in glob.glob(BASE + '/C??'))
 def sh(cmd, cwd):
     p = subprocess.run(cmd, shell=True, cwd=cwd, capture_output=True, text=True)
     return p.returncode, (p.stdout + p.stderr)
 for P in props:
-    wt = '/tmp/mut/' + P
-    for k in (1, 2):
+    wt = BASE + '/' + P
+    for k in (1, 2, 3):
         diff = '%s/_mut/m%d.diff' % (wt, k)
         demo = '%s/_mut/m%d_demo.rs' % (wt, k)
         if not (os.path.exists(diff) and os.path.exists(demo)):
@@ -38,4 +39,4 @@ for P in props:
         res[key] = {'applies': True, 'suite_passes_with_change': suite_ok, 'demo_fails_with_change': fails_with, 'demo_passes_without': passes_without, 'demo_cmd': cmd,
                     'demo_tail_with_change': out_with[-400:]}
         print(key, res[key]['suite_passes_with_change'], fails_with, passes_without, flush=True)
-        json.dump(res, open('/var/tmp/mutres/confirm.json', 'w'), indent=1)
+        json.dump(res, open(os.environ.get('MUT_OUT', '/var/tmp/mutres/confirm.json'), 'w'), indent=1)
